@@ -255,6 +255,18 @@ func batchDiff(t *testing.T, e *env, res *result, r *rand.Rand, k int) {
 			defer e.js.DeleteKeyValue(name)
 			m := h.NewModel(ttl)
 			logical := time.Unix(1000, 0)
+			// the election passes its TTL as an option of every Create / Update; the bucket, not
+			// the write, decides how long a value lives: whatever TTL a write mentions - none, the
+			// bucket's, a much shorter or a much longer one - the adapter answers like the model
+			var wopts []interface{}
+			switch wi % 4 {
+			case 1:
+				wopts = []interface{}{ttl}
+			case 2:
+				wopts = []interface{}{time.Millisecond}
+			case 3:
+				wopts = []interface{}{10 * ttl}
+			}
 			keys := []string{"a", "b", "c"}[:1+rr.IntN(3)]
 			known := map[string][]uint64{} // revisions seen per key
 			L := 8 + rr.IntN(14)
@@ -270,7 +282,7 @@ func batchDiff(t *testing.T, e *env, res *result, r *rand.Rand, k int) {
 				switch op {
 				case "Create":
 					v := genValue(rr)
-					rev, err := kv.Create(key, v)
+					rev, err := kv.Create(key, v, wopts...)
 					mrev, merr := m.Create(key, v, "x", logical)
 					got, want = fmt.Sprintf("%d %s", rev, errClass(err)), fmt.Sprintf("%d %s", mrev, errClass(merr))
 					if err == nil {
@@ -292,7 +304,7 @@ func batchDiff(t *testing.T, e *env, res *result, r *rand.Rand, k int) {
 						d.Rev, rv = "fresh", uint64(1+rr.IntN(40))
 					}
 					d.RevN = rv
-					rev, err := kv.Update(key, v, rv)
+					rev, err := kv.Update(key, v, rv, wopts...)
 					mrev, merr := m.Update(key, v, rv, "x", logical)
 					got, want = fmt.Sprintf("%d %s", rev, errClass(err)), fmt.Sprintf("%d %s", mrev, errClass(merr))
 					if err == nil {
